@@ -4,7 +4,6 @@ NOTES = ("One entry point: ./check <ID> [--tier quick|thorough] [--replay FILE].
          "2 = UNDECIDED (lost anchor, unsupported construct, resource limit) - never an alarm. See DESIGN.md.")
 
 NOT_APPLICABLE = [
-    dict(property_id="C04", reason="end state of a process tree (tokio tasks + ssh + remote sh pipelines); no contract on a Rust function states it. Decidable fragments are claimed under C19 (plan), C15 (exclude/delete) and C09 (per-file delivery)."),
 ]
 
 CHECKS = {}
@@ -70,6 +69,9 @@ CHECKS["C06"] = dict(
     text="Exact per-action contract for what apply records, winner/loser rule of divergent edits (greater BLAKE3 at the path, loser at the conflict-copy name, both sides), record-names-only-live-paths invariant of run_bisync; convergence/idempotence as whole-tree equality is exercised by the history twin only.",
     note=_BISYNC_NOTE, technique="Verus contracts against a ghost file-system world", design_ref="DESIGN.md §3 C02/C06/C07/C08")
 _SERVE_NOTE = "Trusted: Verus+Z3 / Kani+CBMC, extractor rules, ghost world with commit lock and process-private staging names, fs2 flock as mutual exclusion, std::path component grammar behind safe_join (assumed, validated), ciborium by contract. Interleavings are not explored by a verifier: the lock-discipline contracts plus the standard linearizability argument; the session twin forces named schedules on the real binary."
+CHECKS["C04"] = dict(text="Contracts on every Rust function that decides WHAT a recursive one-way sync does to the destination: the plan (build_plan, needs_transfer, is_excluded, glob_match: Verus + Kani, unbounded), one delivery (deliver_local, deliver_pull: frame, bytes, mtime), the delete application (apply_remote_deletes: exactly the planned unlinks locally; remotely ONE command whose xargs-cut argument list is exactly the planned paths) and the remote directory list (create_remote_dirs). The end-to-end statement over the orchestration functions and the remote shell has no contract; a BOUNDED run on the real binary stands in (15 awkward names incl. newlines, 4 destination states, 5 flag sets, 3 directions).",
+                     note="Trusted: how xargs cuts its input (assumed), the one-way world, R3'/R5 shims, the path grammar. H12 (newline-delimited xargs lists: a stale name with a newline was not deleted while another file - or one in the remote working directory - was, exit 0) was found here and fixed in /repo 0e5c8c2; the pre-fix code fails apply_remote_deletes' push postcondition.",
+                     technique="Verus contracts on plan, delivery, delete application and remote list encoding (ghost remote-command log); bounded end-to-end run on the real binary", design_ref="DESIGN.md §3 C04")
 CHECKS["C14"] = dict(text="The per-file chain behind 'an unchanged tree is never re-sent', as contracts on the real functions: the quick check needs_transfer/build_plan selects a file exactly when it is absent or differs in size or whole-second mtime (Verus + Kani, shared with C19); deliver_local/deliver_pull leave the delivered file with the planned whole-second mtime (Verus, against the one-way world extended with mtimes); lemma: such a file is not selected again. The two-run, three-direction statement itself is exercised by a BOUNDED twin on the real binary (sub-second, epoch and far-future mtimes).",
                      note="Trusted: set_local_mtime/mtime_secs and the discover_* functions by contract; the one-way world. Not decided by contract: the orchestration functions, the push direction and the remote listing (shell).",
                      technique="Verus contracts (quick check; mtime postcondition of delivery; composition lemma) + Kani (needs_transfer); bounded second-run twin on the real binary", design_ref="DESIGN.md §3 C14")
